@@ -18,10 +18,8 @@ extern "C" int h_memcmp(void) {
   size_t s = verif_concrete(verif_range(verif_param(0), verif_param(1), "len"));
   long all = verif_param(2), mode = verif_param(3), noslack = verif_param(4);
   size_t da = pick_dist(all, "dist_a"), db = pick_dist(all, "dist_b");
-  uint8_t* a = (uint8_t*)verif_alloc_page_end(s, da);
-  if (!noslack) verif_map_slack(a + s, da < 64 ? da : 64);
-  uint8_t* b = (uint8_t*)verif_alloc_page_end(s, db);
-  if (!noslack) verif_map_slack(b + s, db < 64 ? db : 64);
+  uint8_t* a = (uint8_t*)verif_alloc_page_end(s, da, noslack ? 0 : 64);
+  uint8_t* b = (uint8_t*)verif_alloc_page_end(s, db, noslack ? 0 : 64);
   verif_symbolic(a, s, "a");
   verif_symbolic(b, s, "b");
   if (mode == 0) {
